@@ -43,7 +43,7 @@ def _diff(a, b, path):
             miss = sorted(map(str, ka - kb))
             extra = sorted(map(str, kb - ka))
             # numeric keys (capability / attribute / TLV codes) would give one signature per code for one root cause
-            if all(k.lstrip('-').isdigit() for k in miss + extra):
+            if all(k.lstrip('-').isdigit() for k in miss + extra) or len(miss) + len(extra) > 2:
                 miss, extra = (['#'] if miss else []), (['#'] if extra else [])
             return path + '<keys:missing=%s,extra=%s>' % (','.join(miss), ','.join(extra))
         for k in sorted(a, key=str):
